@@ -5,6 +5,7 @@
 -/
 import Cog.IR.Vir
 import Cog.Builder.Types
+import Cog.Builder.Rules
 namespace Cog.Builder.Vir
 open Cog Cog.IR Cog.IR.Vir Cog.Builder
 
@@ -164,5 +165,147 @@ def outcomeOut : Outcome Builders → String
   | .err "diverge" => "diverge"
   | .err _ => "err"
   | .panic _ => "panic"
+
+
+/-! ### veneer rule files (Go side: harness/c17_rules_vir.go, printed from the decoded `yaml.Veneers`) -/
+
+def strList (head : String) : Sexp → Option (List String)
+  | .list (.atom h :: xs) => if h == head then strsIn xs else none
+  | _ => none
+
+def strPairs (head : String) : Sexp → Option (List (String × String))
+  | .list (.atom h :: xs) => if h == head then pairsIn xs else none
+  | _ => none
+
+partial def vvalueIn : Sexp → Option VValue
+  | .list [.atom "vv", a, c, e] => do
+    let a' ← match a with
+      | .atom "none" => some none
+      | s => (argIn s).map fun x => some ({ id := 0, arg := x } : ArgCell)
+    let (he, env) ← match e with
+      | .atom "none" => some (false, [])
+      | .list (.atom "env" :: fs) => do
+        let fs' ← fs.mapM fun (x : Sexp) => match x with
+          | .list [.atom "ef", .str f, v] => do some ({ field := f, value := (← vvalueIn v) } : VEnvFieldOf VValue)
+          | _ => none
+        some (true, fs')
+      | _ => none
+    some (.mk a' (← valIn c) he env)
+  | _ => none
+
+def vasgIn : Sexp → Option VAssignment
+  | .list [.atom "vasg", .str p, .str m, v] => do some { path := p, method := m, value := (← vvalueIn v) }
+  | _ => none
+
+def voptIn : Sexp → Option VOption
+  | .list [.atom "vopt", .str n, .list (.atom "c" :: cs), .list (.atom "args" :: as), .list (.atom "vasgs" :: gs)] => do
+    some { name := n, comments := (← strsIn cs), arguments := (← as.mapM argIn), assignments := (← gs.mapM vasgIn) }
+  | _ => none
+
+def bselIn : Sexp → Option BSel
+  | .list [.atom "by_object", .str s] => some (.byObject s)
+  | .list [.atom "by_name", .str s] => some (.byName s)
+  | .list [.atom "by_variant", .str s] => some (.byVariant s)
+  | .list [.atom "gen"] => some .generatedFromDisjunction
+  | .list [.atom "empty"] => some .empty
+  | _ => none
+
+def bruleIn : Sexp → Option BRule
+  | .list [.atom "omit", s] => do some (.omit (← bselIn s))
+  | .list [.atom "rename", s, .str a] => do some (.rename (← bselIn s) a)
+  | .list [.atom "merge_into", .str d, .str src, .str u, ex, ren] => do
+    some (.mergeInto d src u (← strList "ex" ex) (← strPairs "ren" ren))
+  | .list [.atom "compose", s, .str src, .str dfield, ex, cmap, .str cn, .atom pr] => do
+    let sel ← bselIn s
+    let exl ← strList "ex" ex
+    let cm ← strPairs "map" cmap
+    let cfg : ComposeCfg := { sourceBuilderName := src, pluginDiscriminatorField := dfield, excludeOptions := exl, compositionMap := cm, composedBuilderName := cn, preserveOriginalBuilders := pr == "true" }
+    some (.compose sel cfg)
+  | .list (.atom "properties" :: s :: fs) => do some (.properties (← bselIn s) (← fs.mapM fieldIn))
+  | .list [.atom "duplicate", s, .str a, ex] => do some (.duplicate (← bselIn s) a (← strList "ex" ex))
+  | .list (.atom "initialize" :: s :: sets) => do
+    let sel ← bselIn s
+    let sets' ← sets.mapM fun (x : Sexp) => match x with
+      | .list [.str p, v] => (valIn v).map fun v' => (p, v')
+      | _ => none
+    some (.initialize sel sets')
+  | .list (.atom "promote" :: s :: os) => do some (.promote (← bselIn s) (← strsIn os))
+  | .list [.atom "add_option", s, o] => do some (.addOption (← bselIn s) (← voptIn o))
+  | .list [.atom "add_factory", s, f] => do some (.addFactory (← bselIn s) (← factoryIn f))
+  | .list [.atom "empty"] => some .empty
+  | _ => none
+
+def oselIn : Sexp → Option OSel
+  | .list [.atom "by_name", .str s] => some (.byName s)
+  | .list [.atom "by_builder", .str s] => some (.byBuilder s)
+  | .list (.atom "by_names" :: .str o :: .str b :: os) => do some (.byNames o b (← strsIn os))
+  | .list [.atom "empty"] => some .empty
+  | _ => none
+
+def fieldsIn : Sexp → Option (Option (List String))
+  | .atom "none" => some none
+  | .list (.atom "fields" :: xs) => (strsIn xs).map some
+  | _ => none
+
+def oruleIn : Sexp → Option ORule
+  | .list [.atom "omit", s] => do some (.omit (← oselIn s))
+  | .list [.atom "rename", s, .str a] => do some (.rename (← oselIn s) a)
+  | .list (.atom "rename_arguments" :: s :: as) => do some (.renameArguments (← oselIn s) (← strsIn as))
+  | .list [.atom "unfold_boolean", s, .str t, .str f] => do some (.unfoldBoolean (← oselIn s) t f)
+  | .list [.atom "sf_args", s, fs] => do some (.structFieldsAsArguments (← oselIn s) (← fieldsIn fs))
+  | .list [.atom "sf_opts", s, fs] => do some (.structFieldsAsOptions (← oselIn s) (← fieldsIn fs))
+  | .list [.atom "array_to_append", s] => do some (.arrayToAppend (← oselIn s))
+  | .list [.atom "map_to_index", s] => do some (.mapToIndex (← oselIn s))
+  | .list [.atom "disj_as_opts", s, .atom i] => do some (.disjunctionAsOptions (← oselIn s) (← i.toInt?))
+  | .list [.atom "duplicate", s, .str a] => do some (.duplicate (← oselIn s) a)
+  | .list [.atom "add_assignment", s, a] => do some (.addAssignment (← oselIn s) (← vasgIn a))
+  | .list (.atom "add_comments" :: s :: cs) => do some (.addComments (← oselIn s) (← strsIn cs))
+  | .list [.atom "empty"] => some .empty
+  | _ => none
+
+def vfileIn : Sexp → Option VFile
+  | .list [.atom "file", .str lang, .str pkg, .list (.atom "builders" :: bs), .list (.atom "options" :: os)] => do
+    some { language := lang, pkg := pkg, builders := (← bs.mapM bruleIn), options := (← os.mapM oruleIn) }
+  | _ => none
+
+/-- `(veneers "<target language>" <file>*)` -/
+def veneersIn : Sexp → Option (String × List VFile)
+  | .list (.atom "veneers" :: .str lang :: fs) => do some (lang, (← fs.mapM vfileIn))
+  | _ => none
+
+/-! pointer identities of the rule-owned pointees (`*ast.Argument` decoded from YAML, the decoded
+    `Arguments` slice of an `add_option`): one fresh identity each, shared by every application -/
+
+partial def numberVValue : VValue → Nat → VValue × Nat
+  | .mk a c he env, n =>
+    let (a', n) := match a with
+      | some cell => (some { cell with id := n }, n + 1)
+      | none => (none, n)
+    let (env', n) := env.foldl (fun (acc : List (VEnvFieldOf VValue) × Nat) e =>
+      let r := numberVValue e.value acc.2
+      (acc.1 ++ [{ e with value := r.1 }], r.2)) ([], n)
+    (.mk a' c he env', n)
+
+def numberVAssignment (a : VAssignment) (n : Nat) : VAssignment × Nat :=
+  let r := numberVValue a.value n
+  ({ a with value := r.1 }, r.2)
+
+def numberBRule : BRule → Nat → BRule × Nat
+  | .addOption s o, n =>
+    let (as, n') := o.assignments.foldl (fun (acc : List VAssignment × Nat) a =>
+      let r := numberVAssignment a acc.2
+      (acc.1 ++ [r.1], r.2)) ([], n + 1)
+    (.addOption s { o with argsId := n, assignments := as }, n')
+  | r, n => (r, n)
+
+def numberORule : ORule → Nat → ORule × Nat
+  | .addAssignment s a, n => let r := numberVAssignment a n; (.addAssignment s r.1, r.2)
+  | r, n => (r, n)
+
+def numberFiles (fs : List VFile) (n : Nat) : List VFile × Nat :=
+  fs.foldl (fun (acc : List VFile × Nat) f =>
+    let (bs, n) := f.builders.foldl (fun (a : List BRule × Nat) r => let x := numberBRule r a.2; (a.1 ++ [x.1], x.2)) ([], acc.2)
+    let (os, n) := f.options.foldl (fun (a : List ORule × Nat) r => let x := numberORule r a.2; (a.1 ++ [x.1], x.2)) ([], n)
+    (acc.1 ++ [{ f with builders := bs, options := os }], n)) ([], n)
 
 end Cog.Builder.Vir
